@@ -738,4 +738,11 @@ def compare(op, a, b):
         if op == '>':
             return y < x
         return y <= x
+    if isinstance(a, SVal) and isinstance(b, SVal):
+        # ordering of two untyped values: uninterpreted (may also raise
+        # TypeError in Python - not modelled)
+        f = z3.Function('py.lt', Val, Val, z3.BoolSort())
+        g = z3.Function('py.le', Val, Val, z3.BoolSort())
+        return {'<': f(a.t, b.t), '<=': g(a.t, b.t), '>': f(b.t, a.t),
+                '>=': g(b.t, a.t)}[op]
     raise Unsupported('%s on %r, %r' % (op, a, b))
